@@ -193,7 +193,7 @@ CLAIMED = {
              "audio with the same CMN state on fresh decoders - single samples to pieces around one window / the 128-frame "
              "cepstrum buffer / the 256-frame live ring, buffered pieces, int16/float32, interleaved result / lattice / partial "
              "alignment / JSON queries - and TLC validates that every final hypothesis, segmentation with scores, path score, "
-             "alignment tree and frame count equals the reference's and that the frame-count formula holds.",
+             "alignment tree and frame count equals the reference's and that the frame-count formula holds. A second model, FeatValues, states what each dynamic-feature frame holds for the six feature types; integer-valued cepstra go through the real feat_s2mfc2feat_live in pieces and TLC compares every number (frame count: C07; values: extended specification, reported as notes).",
         note="grow_feat = TRUE (the default) is modelled; ring-mode feat_buf is not. CMN is fixed with decoder_set_cmn, audio "
              "< 300 frames; full_utt (batch CMN) is not compared with streaming. Trusted: TLC, recorder. One genuine defect "
              "found and repaired (fix: 1dde7cd); the FE frame loss reachable through acmod was repaired under C06 (64f3f4f).",
